@@ -53,6 +53,17 @@ FRAMES = [
 NF = len(FRAMES)
 
 
+# USING clauses: (text, what the model of alias m must receive).  Which one a statement gets is a fixed function of its other choices.
+USINGS = [("Opt1=7, M.opt2='q'", {'opt1': 7, 'opt2': 'q'}),
+          ("m.Deep.Key=7, opt2='q'", {'deep.key': 7, 'opt2': 'q'}),                       # the option's own name holds a dot
+          ("other.opt3=1, m.opt1=7, opt2='q'", {'opt1': 7, 'opt2': 'q'}),                 # an option addressed to another alias
+          ("m.`a.b`=7, OPT2='q'", {'a.b': 7, 'opt2': 'q'})]
+
+
+def using_variant(shape, a, b, c):
+    return (shape + 2 * a + 3 * b + c) % len(USINGS)
+
+
 def build(shape, a, b, c, on_clause, using, model_first, frame=0):
     tmpl, top = SHAPES[shape]
     slots = {'A': ATOMS[a], 'B': ATOMS[b], 'C': ATOMS[c]}
@@ -65,7 +76,7 @@ def build(shape, a, b, c, on_clause, using, model_first, frame=0):
         frm = 'mindsdb.pred AS m JOIN int1.tbl1 AS t' + on
     else:
         frm = 'int1.tbl1 AS t JOIN mindsdb.pred AS m' + on
-    us = ' USING Opt1=7, M.opt2=\'q\'' if using else ''
+    us = (' USING ' + USINGS[using_variant(shape, a, b, c)][0]) if using else ''
     sql = 'SELECT t.a, m.p FROM %s WHERE %s%s' % (frm, where, us)
     top_atoms = [slots[k] for k in used if k in top]
     all_atoms = [slots[k] for k in used]
@@ -318,8 +329,9 @@ def leaf(shape, a, b, c, on_clause, using, model_first, frame=0):
             problems.append('a model condition is sent to the integration: %s' % f.query)
     # USING options reach the model unchanged apart from key case
     if using:
-        if p.params != {'opt1': 7, 'opt2': 'q'}:
-            problems.append('model params %r, expected {opt1: 7, opt2: q}' % (p.params,))
+        want_params = USINGS[using_variant(shape, a, b, c)][1]
+        if p.params != want_params:
+            problems.append('model params %r, expected %r (USING %s)' % (p.params, want_params, USINGS[using_variant(shape, a, b, c)][0]))
     elif p.params:
         problems.append('model params %r without USING' % (p.params,))
     # ON equalities between model and table columns -> column mapping
